@@ -15,6 +15,7 @@ import JT.Gen.SaveGuard
 import JT.Model.Term
 import JT.Gen.TermDefaults
 import JT.Model.AttStream
+import JT.Model.Codec2
 /-!
 Line-protocol driver: one operation per input line, one result line per operation.
 `<idx> <op> <args…>` ↦ `<idx> <result>`.
@@ -200,6 +201,30 @@ def dialectOfCtx (ctx : String) : AttStream.Dialect :=
   AttStream.dialectOf (match (ctx.splitOn "/").getLast? with
     | some "JS" => 1 | some "HLJ" => 2 | some "GD" => 3 | some "HN" => 4 | some "SC" => 5 | _ => 1)
 
+def versionOfCtx (ctx : String) : Nat :=
+  match (ctx.splitOn "/").head? with
+  | some "v2011" => 1 | some "v2019" => 3 | _ => 2
+
+/-- outcome-class models of `JT/Model/Codec2.lean` (checked accesses; no-panic theorems in `JT/Proof/Codec2.lean`) -/
+def totModel2 (ty ctx : String) (b : Bytes) : Option String :=
+  match ty with
+  | "T0x0002" => some (resClass (Codec2.parseT0x0002 b))
+  | "P0x8104" => some (resClass (Codec2.parseP0x8104 b))
+  | "P0x9003" => some (resClass (Codec2.parseP0x9003 b))
+  | "T0x0102" => some (resClass (Codec2.parseT0x0102 (versionOfCtx ctx) b))
+  | "T0x0100" => some (resClass (Codec2.parseT0x0100 (versionOfCtx ctx) b))
+  | "P0x8100" => some (resClass (Codec2.parseP0x8100 b))
+  | "P0x9101" => some (resClass (Codec2.parseP0x9101 b))
+  | "P0x9201" => some (resClass (Codec2.parseP0x9201 b))
+  | "P0x9206" => some (resClass (Codec2.parseP0x9206 b))
+  | "T0x1205" => some (resClass (Codec2.parseT0x1205 b))
+  | "P0x9205" => some (resClass (Codec2.parseP0x9205 b))
+  | "P0x9202" => some (resClass (Codec2.parseP0x9202 b))
+  | "P0x8801" => some (resClass (Codec2.parseP0x8801 b))
+  | "T0x1005" => some (resClass (Codec2.parseT0x1005 b))
+  | "P0x9208" => some (resClass (Codec2.parseP0x9208 (dialectOfCtx ctx) b))
+  | _ => none
+
 def totModel (ty : String) (ctx : String) (b : Bytes) : Option String :=
   if ty == "T0x1210" then some (resClass (AttStream.parse1210 (dialectOfCtx ctx) b))
   else if ty == "T0x1211" || ty == "T0x1212" then some (resClass (AttStream.parse1211 b))
@@ -215,7 +240,7 @@ def totModel (ty : String) (ctx : String) (b : Bytes) : Option String :=
     | "T0x0200" => some (match Loc.parse0200 b with | .ok _ => "ok" | .err => "err" | .panic => "panic")
     | "T0x0704" => some (match run0704 b with | .ok _ => "ok" | .err => "err" | .panic => "panic")
     | "T0x0801" => some (match run0801 b with | .ok _ => "ok" | .err => "err" | .panic => "panic")
-    | _ => none
+    | _ => totModel2 ty ctx b
 
 /-! ### scripted platform-command scenarios over the transition system `JT.Act` -/
 namespace ActSim
